@@ -443,10 +443,22 @@ def _wiring(prog: Program, run: Run) -> None:
         call = [c for c in walk_no_nested(h.node) if isinstance(c, ast.Call) and call_name(c) ==
                 "_compute_available_objects"]
         okh = True
-        if not call or len(call[0].args) != 2 or not all(isinstance(a, ast.Name) and
-                                                          a.id in inner for a in call[0].args):
+        # the two function arguments may be nested functions, module-level functions or lambdas
+
+        def fn_of(a: ast.AST):
+            if isinstance(a, ast.Lambda):
+                return ast.FunctionDef(name="<lambda>", args=a.args,
+                                       body=[ast.Return(value=a.body)], decorator_list=[])
+            if isinstance(a, ast.Name):
+                if a.id in inner:
+                    return inner[a.id]
+                g_ = prog.module_func(h.module, a.id)
+                if g_ is not None:
+                    return g_.node
+            return None
+        if not call or len(call[0].args) != 2 or any(fn_of(a) is None for a in call[0].args):
             raise AnalysisError(f"{helper}: shape not recognised")
-        lfn, xfn = inner[call[0].args[0].id], inner[call[0].args[1].id]
+        lfn, xfn = fn_of(call[0].args[0]), fn_of(call[0].args[1])
         lret = " ".join(ast.unparse(r.value) for r in ast.walk(lfn) if isinstance(r, ast.Return)
                         and r.value)
         xret = [ast.unparse(r.value) for r in ast.walk(xfn) if isinstance(r, ast.Return) and
